@@ -12,6 +12,25 @@
 #define VH_CAT(a, b, c) VH_CAT2(a, b, c)
 #define VH_FN VH_CAT(vh_fmm_segments_d, VH_DIM, VH_PER)
 
+#ifdef VH_HILBERT
+#include "spacial/tbfhilbertspaceindex.hpp"
+void vh_fmm_segments_hilbert(std::map<std::string, std::vector<fmm::Segment>>& out) {
+    using E = fmm::Env<double, 3, false, TbfHilbertSpaceIndex<3, TbfSpacialConfiguration<double, 3>, false>>;
+    out["c02"].push_back(fmm::c02RandomSegment<E>(60, 1500, true));
+    // exactly-once still has to hold with the Hilbert ordering (per-pair counts; cell-level geometry is the known finding of C11)
+    fmm::Segment s; s.name = "c01-random-hilbert-D3";
+    s.count = [](bool th) { return th ? 1500L : 60L; };
+    s.run = [](long kk, uint64_t seed, bool, vh::Result& res) {
+        vh::Rng r(vh::mix(seed ^ 0xC01B, uint64_t(kk)));
+        auto c = fmm::randomConf<E>(r, vh::mix(seed, kk), vp::PSET_N);
+        res.desc = fmm::confDesc<E>(c);
+        bool nt = false; uint64_t occ = 0;
+        fmm::runSetC01<E>(c, res, nt, occ, false);
+        res.nontrivial = nt; res.sig = fmm::confSig<E>(c, occ); res.ev("configurations");
+    };
+    out["c01"].push_back(s);
+}
+#else
 void VH_FN(std::map<std::string, std::vector<fmm::Segment>>& out) {
     using E = fmm::Env<double, VH_DIM, (VH_PER != 0)>;
     constexpr int D = VH_DIM;
@@ -31,3 +50,4 @@ void VH_FN(std::map<std::string, std::vector<fmm::Segment>>& out) {
     out["c10"].push_back(fmm::c10Segment<E>(D == 3 ? 45 : 36, D == 3 ? 700 : 1000));
 #endif
 }
+#endif
